@@ -150,7 +150,7 @@ func batchesSig(bs []hx.Batch) string {
 // C37 — dispatch hooks see exactly one start and one end per dispatched call.
 func C37(e *simkern.Env) {
 	tp := e.Tape
-	ops := pipew.GenOps(tp, pipew.GenCfg{MinOps: 2, MaxOps: 7, Bad: true, BadStream: true, FailBias: 5, InitFail: true, Cancel: true, MaxTurns: 4, NonceBase: 37000})
+	ops := pipew.GenOps(tp, pipew.GenCfg{MinOps: 2, MaxOps: 7, Bad: true, BadStream: true, FailBias: 5, InitFail: true, Cancel: true, MaxTurns: 4, NonceBase: 37000, NoHook: true})
 	for _, op := range ops {
 		if op.StreamKind == "producer" {
 			op.CancelAt = -1
